@@ -254,3 +254,21 @@ impl Lcg {
         l
     }
 }
+
+/// Like `proj` but always a record {"p","q","e"} (integers: q = 1, e = -999), so that the trace
+/// specification can treat every observed number uniformly.
+pub fn projr(x: f64, dmax: i64) -> Value {
+    if x.is_nan() || x.is_infinite() {
+        return json!({"p": 0, "q": 0, "e": 0, "cls": if x.is_nan() { "nan" } else if x > 0.0 { "inf" } else { "-inf" }});
+    }
+    if x == x.trunc() && x.abs() < 1e9 {
+        return json!({"p": x as i64, "q": 1, "e": -999});
+    }
+    let (p, q, err) = rat(x, dmax);
+    let rel = err / x.abs().max(1e-300);
+    let e = if err == 0.0 { -999 } else { rel.log2().ceil() as i64 };
+    json!({"p": p, "q": q, "e": e})
+}
+pub fn projrs(x: &[f64], dmax: i64) -> Value {
+    Value::Array(x.iter().map(|v| projr(*v, dmax)).collect())
+}
